@@ -1,6 +1,7 @@
 package main
 
 import (
+	"strings"
 	"bufio"
 	"encoding/json"
 	"fmt"
@@ -45,6 +46,9 @@ func manifest() int {
 			continue
 		}
 		m := checks.Metas[id]
+		if ex := checks.MetaExtras[id]; len(ex) > 0 {
+			m.Text += " Additional rules (added after independently seeded changes showed gaps): " + strings.Join(ex, "; ") + "."
+		}
 		served = append(served, id)
 		cks = append(cks, map[string]any{
 			"property_id":         id,
